@@ -3,7 +3,9 @@ package c13
 import (
 	"fmt"
 	"math"
+	"os"
 	"reflect"
+	"sync"
 	"testing"
 
 	"github.com/go-kid/ioc/app"
@@ -39,6 +41,14 @@ type RunLazy struct{ zoo.Core }
 
 func (r *RunLazy) LazyInit()  {}
 func (r *RunLazy) Run() error { return run(r.B) }
+
+// a runner that is also a (pass-through) component post-processor, e.g. a scheduler that collects its jobs while
+// components are created and starts them in Run
+type RunPP struct{ zoo.Core }
+
+func (r *RunPP) Run() error                                                   { return run(r.B) }
+func (r *RunPP) PostProcessBeforeInitialization(c any, n string) (any, error) { return c, nil }
+func (r *RunPP) PostProcessAfterInitialization(c any, n string) (any, error)  { return c, nil }
 
 // causeless: a legal error value whose Cause() is nil (e.g. an OpError without inner error).
 type causeless struct{ op string }
@@ -77,12 +87,12 @@ type ghost struct{ calls int }
 func (g *ghost) Run() error { g.calls++; return nil }
 
 type rspec struct {
-	Class int // 0 P, 1 O, 2 N, 3 lazy-unordered
+	Class int // 0 P, 1 O, 2 N, 3 lazy-unordered, 4 unordered and also a component post-processor
 	Ord   int
 }
 
 func cls(c int) int {
-	if c == 3 {
+	if c >= 3 {
 		return 2
 	}
 	return c
@@ -112,7 +122,7 @@ func TestRunners(t *testing.T) {
 		ids := make([]int, nr)
 		initFaults := 0
 		for i := range specs {
-			specs[i].Class = rapid.IntRange(0, 3).Draw(t, "class")
+			specs[i].Class = rapid.IntRange(0, 4).Draw(t, "class")
 			if specs[i].Class < 2 {
 				specs[i].Ord = ordGen.Draw(t, "ord")
 			}
@@ -133,6 +143,8 @@ func TestRunners(t *testing.T) {
 				c = &RunOO{zoo.Core{B: b}}
 			case 2:
 				c = &RunNO{zoo.Core{B: b}}
+			case 4:
+				c = &RunPP{zoo.Core{B: b}}
 			default:
 				c = &RunLazy{zoo.Core{B: b}}
 			}
@@ -276,5 +288,55 @@ func TestRunners(t *testing.T) {
 		}
 		nt := (nr >= 2 && len(classes) >= 2) || (failing >= 0 && len(seq) < nr)
 		kit.Rec.Case(desc, nt, labels...)
+	})
+}
+
+// ---- a runner contributed through the process-wide app.Settings -------------------------------------------------
+
+type GRunner struct{ calls int }
+
+func (g *GRunner) Run() error { g.calls++; return nil }
+
+var gRunner = &GRunner{}
+var gRunnerOnce sync.Once
+
+// TestGlobalSettingsRunner (own process, VERIF_GLOBAL_SETTINGS=1): one runner is registered through
+// app.Settings(app.SetComponents(..)), the others through the options of the individual start - some of which
+// replace the registry / the factory. Every registered runner, the process-wide one included, runs exactly once
+// per start.
+func TestGlobalSettingsRunner(t *testing.T) {
+	if os.Getenv("VERIF_GLOBAL_SETTINGS") != "1" {
+		t.Skip("changes process-wide settings: runs in a process of its own")
+	}
+	kit.Rec.Rule(rule)
+	gRunnerOnce.Do(func() { app.Settings(app.SetComponents(gRunner)) })
+	rapid.Check(t, func(t *rapid.T) {
+		s := graph.Gen(t, graph.GenOpts{MinNodes: 1, MaxNodes: 3, Variants: "NNLP", Aliases: true})
+		in := s.Instantiate()
+		nr := rapid.IntRange(0, 3).Draw(t, "nrunners")
+		var behs []*zoo.Beh
+		for i := 0; i < nr; i++ {
+			b := &zoo.Beh{ID: len(in.Comps) + len(in.Extra), Alias: fmt.Sprintf("runner-%d", i), Mask: "m0", Log: in.Log}
+			c := &RunNO{zoo.Core{B: b}}
+			b.Self = c
+			in.IDs[reflect.ValueOf(c).Pointer()] = b.ID
+			in.Extra = append(in.Extra, c)
+			behs = append(behs, b)
+		}
+		gRunner.calls = 0
+		in.Run()
+		desc := fmt.Sprintf("global-settings %s runners=%d nohook=%v", s.Shape(), nr, s.NoHook)
+		if !in.Out.OK() {
+			t.Fatalf("C13: start failed: %v\n%s", in.Out, desc)
+		}
+		if gRunner.calls != 1 {
+			t.Fatalf("C13: the runner registered through app.Settings ran %d times in this start (exactly once expected)\n%s", gRunner.calls, desc)
+		}
+		for i, b := range behs {
+			if b.RunCalls != 1 {
+				t.Fatalf("C13: runner %d ran %d times\n%s", i, b.RunCalls, desc)
+			}
+		}
+		kit.Rec.Case(desc, !s.NoHook, "runner-through-global-settings")
 	})
 }
